@@ -194,8 +194,17 @@ def native_call(sp, cls_name, fn_name, pre: dict, param_names):
             post[p] = a
         return res, post, None
     f = getattr(mod, fn_name)
+    f = getattr(f, "__wrapped__", f)  # functions behind @with_rust_backend: the Python implementation itself
+    import inspect
+    sig = inspect.signature(f)
+    pos, kw = [], {}
+    for p, a in zip(param_names, args):
+        if p in sig.parameters and sig.parameters[p].kind == inspect.Parameter.KEYWORD_ONLY:
+            kw[p] = a
+        else:
+            pos.append(a)
     try:
-        res = f(*args)
+        res = f(*pos, **kw)
     except Exception as e:  # noqa
         return None, {}, e
     return res, dict(zip(param_names, args)), None
@@ -269,8 +278,9 @@ def replay(key: str, cex: dict, variant=None):
         signal.alarm(0)
         signal.signal(signal.SIGALRM, old_handler)
     if exc is not None:
-        if sp.raises_ok:
-            return {"confirmed": False, "detail": f"raises {exc!r} (allowed)"}
+        if sp.raises_ok or isinstance(exc, (ValueError, NotImplementedError)):
+            # input validation: the call returns nothing, the contracts say nothing about it
+            return {"confirmed": False, "detail": f"raises {exc!r} (input rejected)"}
         return {"confirmed": True, "detail": f"real code raises {exc!r} on a state satisfying the requires",
                 "observed": repr(exc)}
     post = State()
